@@ -9,37 +9,49 @@
 (* The dispatcher starts crunch-run for what Entries() reports Locked.     *)
 (* C14 demands that "a process is started only for a container that is     *)
 (* currently Locked by this dispatcher" and that a cancelled / re-queued   *)
-(* container is not restarted.  A cache that lags behind the API server    *)
-(* by the time since the last poll is unavoidable; what must not happen is *)
-(* that the cache goes BACK to information older than what it already      *)
-(* held (then a container the dispatcher has already seen Cancelled is     *)
-(* Locked again in its eyes and gets started), nor that a completed poll   *)
-(* which nothing interfered with leaves the cache behind the server.       *)
-(*   NoRegress  CacheObs(in, v, fresh): in => v >= seen                    *)
-(*   Fresh      CacheObs(in, v, fresh): fresh /\ in => v = tv              *)
-(* Nothing else is constrained (which calls are made, errors, absence).    *)
+(* container is not restarted.  A cache that lags behind the API server by *)
+(* ordinary polling latency is unavoidable.  What the statement excludes   *)
+(* at this level - the only thing JUDGED - is:                             *)
+(*   StaleStartable  the cache shows the container Locked (startable)      *)
+(*                   with a version OLDER than a non-startable version it  *)
+(*                   has already shown: the dispatcher had learnt that the *)
+(*                   container is no longer to be run and then believes    *)
+(*                   the opposite again                                    *)
+(*                   CacheObs(in, v, s, fresh): ~(in /\ s = "Locked" /\ v < nsv) *)
+(* The stronger, implementation-shaped properties are checked on the model *)
+(* and reported as DRIFT only for the real code (CacheObsFull):            *)
+(*   NoRegress  the cache never goes back to an older version at all       *)
+(*   Fresh      a completed poll which no answer interfered with leaves    *)
+(*              the cache equal to the server (another correct design may  *)
+(*              skip a container while a call for it is in flight)         *)
 (***************************************************************************)
 EXTENDS Naturals
 
 VARIABLES tv,     \* version of the API server's record (number of changes so far)
-          seen    \* highest version the cache has shown
+          seen,   \* highest version the cache has shown
+          nsv     \* highest version the cache has shown with a state other than Locked
 
-qcvars == <<tv, seen>>
+qcvars == <<tv, seen, nsv>>
 
-QCInit == tv = 0 /\ seen = 0
+QCInit == tv = 0 /\ seen = 0 /\ nsv = 0
 
 (* The API server's record changes (by anybody). *)
-TruthEff == tv' = tv + 1 /\ UNCHANGED seen
+TruthEff == tv' = tv + 1 /\ UNCHANGED <<seen, nsv>>
 Truth == TruthEff
 
 (* The queue finished a step; its cache entry for the container is absent  *)
-(* (in = FALSE) or shows version v.  fresh: the step was a complete poll   *)
-(* during which no answer to a call of the queue arrived.                  *)
-CacheObsEff(in, v) == seen' = (IF in /\ v > seen THEN v ELSE seen) /\ UNCHANGED tv
-CacheObs(in, v, fresh) ==
+(* (in = FALSE) or shows version v with state s.  fresh: the step was a    *)
+(* complete poll during which no answer to a call of the queue arrived.    *)
+CacheObsEff(in, v, s) == /\ seen' = (IF in /\ v > seen THEN v ELSE seen)
+                         /\ nsv' = (IF in /\ s # "Locked" /\ v > nsv THEN v ELSE nsv)
+                         /\ UNCHANGED tv
+CacheObs(in, v, s, fresh) ==
+    /\ ~(in /\ s = "Locked" /\ v < nsv)      \* StaleStartable
+    /\ CacheObsEff(in, v, s)
+CacheObsFull(in, v, s, fresh) ==
     /\ in => v >= seen                     \* NoRegress
     /\ (fresh /\ in) => v = tv             \* Fresh
-    /\ CacheObsEff(in, v)
+    /\ CacheObs(in, v, s, fresh)
 
 Other == UNCHANGED qcvars
 =============================================================================
